@@ -7,6 +7,8 @@ from ..core import call, short
 from .. import models as M
 from . import pool
 
+from . import recompute
+
 RULE = ("tables are built so that the cell (row r, column i) holds the unique integer 100*i + r, so any read or write identifies the column it "
 	"touched. For name lists of width 1-12 drawn from a 46-name dictionary (unicode, empty / None, public Vector/Table attribute names, accessor "
 	"look-alikes such as a__1 / col3_ / cols / col__1, case variants, leading digits, every duplication pattern; all pairs and sampled triples "
@@ -25,7 +27,7 @@ ASSUMPTIONS = [
 EXHAUSTIVE = {"flag": True, "scope": "all ordered pairs over the 46-name dictionary (triples and wider lists sampled); histories sampled"}
 ANCHOR_FUNCS = ["naming:_sanitize_user_name", "table:Table._build_column_map", "table:Table.__getattr__", "table:Table.__dir__", "table:Table.__setitem__",
 	"table:Row.__getattr__", "display:_compute_headers"]
-REQUIRED_STRATA = {"static": 1500, "history-step": 1000, "repr-dot-row": 200}
+REQUIRED_STRATA = {"recompute": 200, "early-probe": 100, "static": 1500, "history-step": 1000, "repr-dot-row": 200}
 
 DICT = ["a", "b", "A", "Total $", "total", "x y", "x_y", "x  y", "1st", "007", "", None, "sum", "max", "cols", "T", "name", "copy", "schema", "shape", "join", "fillna",
 	"a__1", "col3_", "col__1", "c1x", "col0_", "col1_", "_a", "a_", "__", "é", "Ünï cödé", "class", "a.b", "a-b", "a__b", "sort_by", "dtype", " a ", "a___1", "total _ 1", "rate_(_2)", "a____7", "x_ _2", "b__10_"]
@@ -309,14 +311,84 @@ def run_history(chk, spec):
 			o = call(repr, t)
 		trace.append(op)
 		chk.judged("history-step", ("hist", op, min(ncols, 11), name_class(new)))
+		if op in ("rename_column", "rename_columns", "view-rename", "row-then-rename") and o.ok and rng.random() < 0.7:
+			if not early_probe(chk, t, names, rng, dict(spec, trace=trace[-6:])):
+				return
 		if not check_table(chk, t, names, f"after-{op}", dict(spec, trace=trace[-6:]), do_write=rng.random() < 0.7, do_repr=rng.random() < 0.5):
 			return
 
 
+def early_probe(chk, t, names, rng, spec):
+	"""right after a rename, ONE access path is exercised first (before dir()/getattr could refresh a cached name map) with the accessor
+	the documented rule predicts for a uniquely and plainly named column"""
+	cands = []
+	for i, nm in enumerate(names):
+		ms = model_sanitise(nm)
+		if isinstance(nm, str) and isinstance(ms, str) and name_class(nm) in ("plain", "punctuated", "unicode", "leading-digit") and not re.search(r"__\d+_?$", ms) \
+				and [model_sanitise(o) for o in names].count(ms) == 1 and None not in [model_sanitise(o) for o in names] and ms not in base_dir()[1] and ms not in {p.lower() for p in base_dir()[1]}:
+			cands.append((i, ms))
+	if not cands or len(t) == 0:
+		return True
+	i, acc = rng.choice(cands)
+	probe = rng.choice(["item-list", "item-tuple", "item-str", "row-attr", "repr-dots", "getattr", "item-slice-list", "setattr"])
+	chk.judged("early-probe", ("early", probe))
+	ncols = len(names)
+	before = [list(c._underlying) for c in t.cols()]
+	sentinel = 100 * i + 55
+	def changed_cols():
+		after = [list(c._underlying) for c in t.cols()]
+		ch = [k for k in range(ncols) if before[k] != after[k]]
+		for k in ch:
+			call(t.cols()[k].__setitem__, slice(None), before[k])
+		return ch
+	if probe in ("item-list", "item-tuple", "item-str", "item-slice-list"):
+		key = {"item-list": (0, [acc]), "item-tuple": (0, (acc,)), "item-str": (0, acc), "item-slice-list": (slice(0, 1), [acc])}[probe]
+		val = {"item-list": [sentinel], "item-tuple": [sentinel], "item-str": sentinel, "item-slice-list": [[sentinel]]}[probe]
+		w = call(t.__setitem__, key, val)
+		ch = changed_cols()
+		if not w.ok or ch != [i]:
+			chk.fail("an advertised accessor works as a column key in table item assignment (right after a rename too)", f"accessor/item-assignment/{'raises' if not w.ok else 'wrong-column'}/first-access-after-rename/{probe}",
+				f"{spec!r}: names {names!r}; t[{key!r}] = {val!r} -> {w!r}, changed columns {ch}, expected [{i}]")
+			return False
+	elif probe == "row-attr":
+		r = call(lambda: getattr(t[0], acc))
+		if not r.ok or column_of_value(r.value) != i:
+			chk.fail("t[0].name reads the column at the accessor's own position (right after a rename too)", f"accessor/row-attribute/{'raises' if not r.ok else 'wrong-column'}/first-access-after-rename",
+				f"{spec!r}: names {names!r}; t[0].{acc} -> {r!r}, column {i} expected")
+			return False
+	elif probe == "getattr":
+		g = call(getattr, t, acc)
+		if not g.ok or g.value is not t.cols()[i]:
+			chk.fail("each accessor resolves by attribute access (right after a rename too)", f"accessor/advertised-name-unresolvable/first-access-after-rename/{'raises' if not g.ok else 'wrong-column'}",
+				f"{spec!r}: names {names!r}; getattr(t, {acc!r}) -> {short(g, 80)}")
+			return False
+	elif probe == "setattr":
+		vals = [100 * i + r for r in range(len(t))]
+		w = call(setattr, t, acc, list(vals))
+		ch = [k for k in range(ncols) if list(t.cols()[k]._underlying) != before[k]]
+		if not w.ok or (ch and ch != [i]):
+			chk.fail("attribute assignment through an accessor replaces the column at its position (right after a rename too)", f"accessor/attribute-assignment/{'raises' if not w.ok else 'wrong-column'}/first-access-after-rename",
+				f"{spec!r}: names {names!r}; t.{acc} = [...] -> {w!r}, changed {ch}")
+			return False
+	else:
+		rp = call(repr, t)
+		if rp.ok:
+			for ln in rp.value.split("\n")[:3]:
+				toks = ln.split()
+				if toks and all(tk.startswith(".") for tk in toks) and len(toks) == ncols and ncols <= 10:
+					if toks[i][1:] != acc:
+						chk.fail("the dot row of repr advertises the current accessor (right after a rename too)", "accessor/repr-dot-row/first-access-after-rename",
+							f"{spec!r}: names {names!r}; repr shows {toks[i]!r} above column {i}, expected .{acc}")
+						return False
+	return True
+
+
 RUNNERS = {"static": run_static, "history": run_history}
+RUNNERS["recompute"] = recompute.runner("C17")
 
 
 def run(chk):
+	recompute.add_cases(chk, "C17")
 	rng = chk.rng
 	idx = 0
 	for nm in DICT:
